@@ -208,5 +208,6 @@ def compromise(game, facet: str) -> None:
             f.corrupt()
         return
     sw = n.software_manager.software.get(comp)
-    if sw is not None and sw.operating_state.name == "RUNNING" and sw.health_state_actual == SoftwareHealthState.GOOD:
-        sw.health_state_actual = SoftwareHealthState.COMPROMISED
+    if sw is not None and sw.operating_state.name == "RUNNING" and sw.health_state_actual in (SoftwareHealthState.GOOD, SoftwareHealthState.FIXING):
+        # through the software's own `compromise` request (what a red application's success amounts to)
+        game.simulation.apply_request(["network", "node", node, "service" if facet == "svc" else "application", comp, "compromise"])
